@@ -1658,6 +1658,14 @@ def context(n, env, stop=None):
                 for d in p.find('VarDecl'):
                     if (d.name or '').startswith('__range'):
                         rng = term(env.init_of(d), env)
+                        rn = strip(env.init_of(d))
+                        # the range named first: `const auto &results = *lookup(a, b); for (auto &r : results)` -- a reference /
+                        # const local that is never assigned again stands for what it was initialised with
+                        if rng is not None and rng[0] == 'var' and rn.kind == 'DeclRefExpr' and rn.refid in env.decl and rn.refid not in env.mutated:
+                            dd = env.decl[rn.refid]
+                            ty = (dd.type or '')
+                            if dd.kind == 'VarDecl' and env.init_of(dd) is not None and ('&' in ty or ty.startswith('const ')):
+                                rng = term(env.init_of(dd), env)
                         break
                 out.append(('range', vd.name, rng, p))
         elif p.kind == 'ForStmt':
